@@ -38,7 +38,7 @@ fn c13_items_hms() {
     kani::cover!(s == 86_399);
 }
 
-// @ob tier=quick timeout=900 mem=14
+// @ob tier=thorough timeout=2400 mem=14
 // @desc item-level format/parse inverse for %Y-%m-%d (years 0..=9999): the real writer's text for [Year, "-", Month, "-", Day] parses back (format::parse + Parsed::to_naive_date) to the same date
 // @bounds all dates with year 0..=9999; items concrete
 // @funcs DelayedFormat::write_to, format_numeric, write_year, format::parse / parse_internal, scan::number, Parsed::{set_*, to_naive_date}
@@ -66,7 +66,7 @@ fn c13_items_ymd() {
 
 macro_rules! date_format_roundtrip {
     ($name:ident, $fmt:expr, $cap:expr, $ylo:expr, $yhi:expr) => {
-        // @ob tier=thorough timeout=5400 mem=16
+        // @ob tier=extra timeout=5400 mem=16
         // @desc format/parse inverse for one concrete date format string of the family (%Y-%m-%d, %Y%m%d is excluded as ambiguous, %Y-%j, %G-W%V-%u, %d/%m/%Y): NaiveDate::parse_from_str(&date.format(f).to_string(), f) == date for every date the format expresses
         // @bounds the listed format strings (concrete); all dates with year in the stated window; text in a fixed buffer
         // @funcs StrftimeItems, DelayedFormat::write_to, format::parse / parse_internal, scan::number, Parsed::to_naive_date, NaiveDate::parse_from_str
@@ -87,7 +87,7 @@ date_format_roundtrip!(c13_ymd_dash, "%Y-%m-%d", 12, 0, 9999);
 date_format_roundtrip!(c13_year_ordinal, "%Y-%j", 10, 0, 9999);
 date_format_roundtrip!(c13_iso_week_date, "%G-W%V-%u", 12, 1, 9998);
 
-// @ob tier=thorough timeout=5400 mem=16
+// @ob tier=extra timeout=5400 mem=16
 // @desc format/parse inverse for the time format %H:%M:%S (second 60 for leap seconds reads back as the leap representation with zero fraction lost only below the printed precision: the fraction is not printed by this format, so times are taken with fraction 0 or exactly 10^9)
 // @bounds all times of day with fraction 0 or 10^9 (on second 59)
 // @funcs NaiveTime::parse_from_str, format::parse, Parsed::to_naive_time
